@@ -615,7 +615,7 @@ def threads_enum_runner(mod, facet, tier, seed, shard, nshards, stats):
         for ia in (None, ["width", "depth"]):
             for plan in sched.single_preemption_plans(2, 40):
                 cases.append({"method": method, "include_args": ia, "threads": 2, "calls": 1, "plan": plan})
-            for k in range(0, 400 if tier == "thorough" else 160):
+            for k in range(0, 400 if tier == "thorough" else 110):
                 cases.append({"opcodes": True, "method": method, "include_args": ia, "threads": 2, "calls": 1, "plan": [[k, 0], [10**6, 1]]})
     stats.extra["enumerated_plans"] = len(cases)
     enumerate_cases(mod, facet, cases, shard, nshards, stats, exhaustive=True)
